@@ -364,7 +364,7 @@ func playHand(h *Hand, mon Monitor) {
 				case 0:
 					op, kind = Op{Name: "reload", Seat: -1}, "reload"
 				case 1, 2:
-					op, kind = noiseOp(h.R, ev), "noise"
+					op, kind = noiseOp(h.R, ev, len(s.Players)), "noise"
 				}
 			}
 		}
@@ -402,6 +402,15 @@ func playHand(h *Hand, mon Monitor) {
 		}
 		if kind == "noise" {
 			h.Rep.Inc("unexpected_operations_tried")
+			if err == nil {
+				h.Rep.Inc("unexpected_operations_accepted")
+				if na, ok := mon.(interface{ UnexpectedAccepted(*Hand, Op, string) }); ok {
+					na.UnexpectedAccepted(h, op, ev)
+					if h.Aborted {
+						return
+					}
+				}
+			}
 			continue // refused (or, on a broken tree, accepted): the loop looks at the state again
 		}
 		if err != nil {
@@ -503,8 +512,15 @@ func traceKey(h *Hand) string {
 
 // noiseOp: an operation that is not the one the hand is waiting for (always through the Game-level
 // methods, so that the stateless backend can be asked the same thing)
-func noiseOp(r *rand.Rand, ev string) Op {
+func noiseOp(r *rand.Rand, ev string, seats int) Op {
 	var cands []Op
+	// a late or duplicated per-seat "pay" message, addressed through the seat's Player handle
+	if ev != "AnteRequested" {
+		cands = append(cands, Op{Name: "payante", Seat: r.Intn(seats)})
+	}
+	if ev != "BlindsRequested" {
+		cands = append(cands, Op{Name: "payblinds", Seat: r.Intn(seats)})
+	}
 	for _, t := range []struct{ ev, op string }{{"ReadyRequested", "ready"}, {"AnteRequested", "ante"}, {"BlindsRequested", "blinds"}, {"RoundClosed", "next"}} {
 		if ev != t.ev {
 			cands = append(cands, Op{Name: t.op, Seat: -1})
